@@ -5,7 +5,7 @@ t=json.load(open('/verif/manifest_table.json'))
 e={"text":sys.argv[2],"note":sys.argv[3],"technique":sys.argv[4]}
 if len(sys.argv)>5: e["category"]=sys.argv[5]
 t['claimed'][sys.argv[1]]=e
-hc=subprocess.check_output("git -C /repo log --format=%h --grep='^verif hooks'",shell=True).decode().split()
+hc=subprocess.check_output("git -C /repo log --format=%h --grep='^verif hook'",shell=True).decode().split()
 t['hook_commits']=list(reversed(hc))
 json.dump(t,open('/verif/manifest_table.json','w'),indent=1)
 subprocess.check_call(['python3','/verif/gen_manifest.py'])
